@@ -36,6 +36,16 @@ func (m *Machine) lenOf(v Value) int {
 }
 
 func (m *Machine) callBuiltin(b *ssa.Builtin, args []Value, fr *frame, pos token.Pos) Value {
+	switch b.Name() {
+	case "len", "cap":
+		if len(args) == 1 {
+			if _, ok := args[0].(*ChanObj); ok {
+				m.markVisible()
+			}
+		}
+	case "append", "copy", "delete", "close", "clear", "recover", "panic":
+		m.markVisible()
+	}
 	c := m.C
 	switch b.Name() {
 	case "len":
